@@ -13,6 +13,7 @@ Import ListNotations.
 Require Import PV.Narrow.Base PV.Narrow.Model PV.Narrow.Guards.
 Require Import PV.Gen.NarrowTable PV.Gen.NarrowPreds PV.Gen.NarrowSrc.
 Require Import PV.Proofs.NarrowSkel PV.Proofs.NarrowSrcTie.
+Require Import PV.Narrow.CoreBridge PV.Proofs.NarrowCoreBridge.
 Require Import PV.Proofs.NarrowBasics PV.Proofs.NarrowMain PV.Proofs.NarrowWiden PV.Proofs.NarrowVerdict.
 
 (* the class table (mro, TypeObject.base_classes, artificial bases), the per-class
@@ -294,3 +295,35 @@ Theorem C02_de_morgan : forall V a b pol,
   narrow V (CNot (COr a b)) pol = narrow V (CAnd (CNot b) (CNot a)) pol.
 Proof. exact de_morgan. Qed.
 Print Assumptions C02_de_morgan.
+
+(* (5) one notion of membership: on the common fragment (un-annotated Any / plain literals / classes /
+   type[...] / list[t] / dict[k, v]; objects other than enum classes) C02's membership spec is the shared
+   Core/Member.v spec instantiated with the C02 class table (whose promotion-aware subclass test
+   sub_promo is TypeObject.can_assign's sub_art), and the main theorem holds for Core's member *)
+Theorem C02_sub_promo_is_sub_art : forall a b, C.sub_promo narrow_ct (code a) (code b) = sub_art a b.
+Proof. exact sub_promo_is_sub_art. Qed.
+Print Assumptions C02_sub_promo_is_sub_art.
+
+Theorem C02_member_narrow_iff_member_core : forall v o,
+  common_value v = true -> common_obj o = true ->
+  M.member narrow_ct (emb_value v) (emb o) = member o v.
+Proof. exact member_narrow_iff_member_core. Qed.
+Print Assumptions C02_member_narrow_iff_member_core.
+
+Theorem C02_narrow_keeps_value_core : forall V c pol o,
+  common_value V = true -> common_value (narrow V c pol) = true -> common_obj o = true ->
+  M.member narrow_ct (emb_value V) (emb o) = true -> holds c o = Some pol -> c02_guard c o = true ->
+  M.member narrow_ct (emb_value (narrow V c pol)) (emb o) = true.
+Proof. exact narrow_keeps_value_core. Qed.
+Print Assumptions C02_narrow_keeps_value_core.
+
+Example C02_core_bridge_inhabited :
+  let V := [plain (VTyped CFloat); plain (VKnown ONone); plain (VGen (GList TIntE)); plain (VSub CA)] in
+  common_value V = true /\ common_obj (OInt 1) = true /\ common_obj (OList [LInt 1]) = true /\
+  M.member narrow_ct (emb_value V) (emb (OInt 1)) = true /\
+  M.member narrow_ct (emb_value V) (emb (OList [LInt 1])) = true /\
+  M.member narrow_ct (emb_value V) (emb (OList [LStr []])) = false /\
+  M.member narrow_ct (emb_value V) (emb (OClass CB)) = true /\
+  common_value (narrow V (CIsInstance [CInt]) true) = true.
+Proof. exact core_bridge_inhabited. Qed.
+Print Assumptions C02_core_bridge_inhabited.
